@@ -163,11 +163,21 @@ def _t_ret(line, arg=None):
     return '%s(%s: %s)%s' % (m.group(1), arg, ty, m.group(3))
 
 
-def _t_mutlet(line, arg=None):
-    return line
+R7_RE = re.compile(r'^(\s*)for (\w+) in \[(.*)\] \{\s*$')
+R7_OUT = re.compile(r'^let verif_(\w+) = \[(.*)\]; for verif_i_\w+ in 0\.\.verif_\w+\.len\(\)$')
 
 
-TRANSFORMERS = [('R1', _t_r1), ('R1u', _t_unsafe), ('ret', _t_ret), ('brace', _t_brace)]
+def _t_r7(line, arg=None):
+    """R7: `for X in [a, b, c] {` -> indexed loop over the same array literal (header clauses follow, then
+    `{` and the binding `let X = verif_X[verif_i_X];`)"""
+    m = R7_RE.match(line)
+    if not m:
+        return line
+    ind, x, lst = m.group(1), m.group(2), m.group(3)
+    return '%slet verif_%s = [%s]; for verif_i_%s in 0..verif_%s.len()' % (ind, x, lst, x, x)
+
+
+TRANSFORMERS = [('R7', _t_r7), ('R1', _t_r1), ('R1u', _t_unsafe), ('ret', _t_ret), ('brace', _t_brace)]
 
 
 def infer_transform(pinned_line, ann_line):
@@ -203,6 +213,9 @@ def key(line):
     s = line.strip()
     if s == '{':
         return '<<brace>>'
+    m = R7_OUT.match(s)
+    if m:
+        return 'for %s in [%s]' % (m.group(1), re.sub(r'\s+', ' ', m.group(2)))
     s = _sub_get_unchecked(s)
     s = re.sub(r'\bunsafe\s*\{', '{', s)
     if s == '{':
@@ -371,7 +384,7 @@ class Script:
                         if all(norm(x) == '' or norm(x).startswith('//') for x in P[bi1:bi2]) and not js:
                             continue
                         raise Undecided("a rewritten block changed near %r" % P[pi].strip())
-                    if pi in self.transform and 'brace' in self.transform[pi][0]:
+                    if pi in self.transform and ('brace' in self.transform[pi][0] or 'R7' in self.transform[pi][0]):
                         # the annotated loop / fn header no longer exists in this form: its clauses are orphaned.
                         # They are dropped (a loop that is gone has no invariant); what the changed code must
                         # still satisfy is decided by the remaining obligations.
